@@ -177,13 +177,13 @@ def register(reg):
         # representation invariant kept by every flow (guarantees: connection_set_only_on_a_connection_not_marked_failed,
         # connect_failed_set_only_while_unconnected): an established connection is never marked failed
         eng.assume(st, hc_invariant(eng, st, s))
+        # _connect_failed is sticky (guarantee: connect_failed_is_only_ever_set).  Any flow that fails or is cancelled
+        # while the connection is unconnected may set it - also while this flow holds the lock and is connecting
+        of0 = eng.old_arr(old, "HC._connect_failed", z3.BoolSort())
+        eng.assume(st, z3.Implies(z3.Select(of0, s.t), z3.Select(eng.heap_arr(st, "HC._connect_failed", z3.BoolSort()), s.t)))
         if lid in st.held:
             o = eng.old_arr(old, "HC._connection", IntS)
             eng.assume(st, z3.Select(eng.heap_arr(st, "HC._connection", IntS), s.t) == z3.Select(o, s.t))
-            # _connect_failed is only set by the flow that holds the request lock
-            # (guarantee: connect_failed_set_only_by_the_establishing_flow)
-            of = eng.old_arr(old, "HC._connect_failed", z3.BoolSort())
-            eng.assume(st, z3.Select(eng.heap_arr(st, "HC._connect_failed", z3.BoolSort()), s.t) == z3.Select(of, s.t))
         else:
             # once set, _connection is never cleared or replaced
             o = eng.old_arr(old, "HC._connection", IntS)
@@ -479,9 +479,7 @@ def register(reg):
                 out.append(("connection_set_only_when_unset", ("C04", "C20"), bool(reads)))
                 out.append(("connection_set_only_on_a_connection_not_marked_failed", ("C04", "C06", "C05"), z3.Not(F(c, c.self, "HC._connect_failed"))))
             if key == "HC._connect_failed":
-                exc = c.interp.exc_stack[-1] if c.interp.exc_stack else None
-                held_at_raise = exc is not None and lid in exc.tag.get("held", [])
-                out.append(("connect_failed_set_only_by_the_establishing_flow", ("C05", "C06", "C04"), held_at_raise))
+                out.append(("connect_failed_is_only_ever_set", ("C05", "C06", "C04"), c.eng.z_bool(c.eng.truthy(c.st, v))))
                 out.append(("connect_failed_set_only_while_unconnected", ("C05", "C06", "C04"), F(c, c.self, "HC._connection") == 0))
             return out
 
@@ -537,15 +535,18 @@ def register(reg):
                 return [("wrong_origin_guard_touches_nothing", ("C10",), not hs and not conns and not c.events("field.write"))]
             if exc.cls == CNA and not exc.tag.get("from"):
                 # C14: a refusal originated here is only allowed while provably nothing was opened or written
+                # (the flow may have opened a stream - and must then have closed it - but nothing of the request was written)
+                got = [x for x in conns if "result" in x.data]
                 out.append(("refusal_only_for_a_connection_marked_failed_and_before_any_io", ("C14", "C06"),
-                            z3.And(F(c, s, "HC._connect_failed"), F(c, s, "HC._connection") == 0, z3.BoolVal(not conns and not hs))))
+                            z3.And(F(c, s, "HC._connect_failed"), F(c, s, "HC._connection") == 0, z3.BoolVal(not hs),
+                                   *[z3.Not(F(c, x.data["result"], "NS.open")) for x in got])))
                 return out
             if not hs:
-                # failed before the request reached a protocol connection: establishment failed/cancelled
-                lid = lock_id(c.new(s, "HC._request_lock"))
-                inside = lid in exc.tag.get("held", [])
-                if inside:
-                    out.append(("failed_establishment_marks_connection_failed", ("C05", "C07"), F(c, s, "HC._connect_failed")))
+                # failed before the request reached a protocol connection: establishment failed / was cancelled, or the
+                # request was cancelled while waiting for the request lock.  From the property (C05): an unconnected
+                # connection that is not marked failed is neither available (HTTP/1.1), idle, closed nor expiring - if
+                # the request that leaves was the one that would have established it, it keeps its slot for ever
+                out.append(("failed_establishment_marks_connection_failed", ("C05", "C07"), z3.Implies(F(c, s, "HC._connection") == 0, F(c, s, "HC._connect_failed"))))
                 # a stream obtained from _connect must have been handed to a protocol connection
                 got = [x for x in conns if "result" in x.data]
                 inits = c.events("H11.__init__") + c.events("H2.__init__")
